@@ -1,9 +1,36 @@
 package props
 
-import "verifharness/core"
+import (
+	"sort"
+
+	"verifharness/core"
+)
 
 // Registry maps a property id to its correspondence check.
 var Registry = map[string]func(*core.Ctx){}
+
+type sub struct {
+	name string
+	f    func(*core.Ctx)
+}
+
+var subs = map[string][]sub{}
+
+// RegisterSub adds one part of a property's check (several files may contribute to one
+// property); parts run in name order.
+func RegisterSub(id, name string, f func(*core.Ctx)) {
+	subs[id] = append(subs[id], sub{name, f})
+	Registry[id] = func(c *core.Ctx) {
+		ss := subs[id]
+		sort.Slice(ss, func(i, j int) bool { return ss[i].name < ss[j].name })
+		for _, s := range ss {
+			if c.Only != "" && c.Only != s.name {
+				continue
+			}
+			s.f(c)
+		}
+	}
+}
 
 // workers are isolated sub-process entry points (crash/oom containment).
 var workers = map[string]func(args []string) int{}
